@@ -6,3 +6,5 @@ import GFO.Model.Stop
 import GFO.Model.Results
 import GFO.Model.Driver
 import GFO.Model.Proto
+import GFO.Proofs.Driver
+import GFO.Props.C03
